@@ -482,6 +482,58 @@ func (w *World) runTreePath(tm *treeModel, fn *ssa.Function, p Path, facts map[s
 					ps.heap[s+"|prev"] = "nil"
 					continue
 				}
+				// a straight-line helper of package ast that only calls the raw link setters on its parameters (e.g. "forget
+				// parent and both siblings"): its effects are replayed with the arguments substituted
+				if w.PkgOf(cal) == modPath+"/ast" && len(cal.Blocks) == 1 && cal.Signature.Recv() == nil {
+					subst := func(v ssa.Value) (string, bool) {
+						v = stripMakeIface(v)
+						if isNilConst(v) {
+							return "nil", true
+						}
+						for pi, pp := range cal.Params {
+							if v == ssa.Value(pp) && pi < len(com.Args) {
+								return symOf(com.Args[pi]), true
+							}
+						}
+						return "", false
+					}
+					type eff struct{ recv, role, val string }
+					var effs []eff
+					okInline := true
+					for _, hi := range cal.Blocks[0].Instrs {
+						hc, isCall := hi.(*ssa.Call)
+						if !isCall {
+							continue
+						}
+						hcom := hc.Common()
+						role := map[string]string{"SetNextSibling": "next", "SetPreviousSibling": "prev", "SetParent": "parent"}[hcom.Method.Name()]
+						if !hcom.IsInvoke() || role == "" {
+							okInline = false
+							break
+						}
+						rv, ok1 := subst(hcom.Value)
+						av, ok2 := subst(hcom.Args[0])
+						if !ok1 || !ok2 {
+							okInline = false
+							break
+						}
+						effs = append(effs, eff{rv, role, av})
+					}
+					if okInline && len(effs) > 0 {
+						for _, e := range effs {
+							ps.write(e.recv, e.role, e.val)
+							if e.role == "parent" {
+								if e.val == "self" {
+									ps.attach = append(ps.attach, e.recv)
+									ps.order = append(ps.order, "attach:"+e.recv)
+								} else if e.val == "nil" {
+									ps.detach = append(ps.detach, e.recv)
+								}
+							}
+						}
+						continue
+					}
+				}
 				if cal.Signature.Recv() != nil && namedOf(cal.Signature.Recv().Type()) == tm.base && len(com.Args) > 0 && com.Args[0] == ssa.Value(fn.Params[0]) {
 					switch cal.Name() {
 					case "RemoveChild", "AppendChild", "InsertBefore", "InsertAfter", "ReplaceChild", "RemoveChildren":
